@@ -344,6 +344,12 @@ func c18SeedPlain(r *core.Rand) (string, string) {
 		text, _, _ := genChangelog(r, 3).render()
 		return "changelog", text
 	case 7:
+		if r.Chance(1, 3) {
+			// several independent faults in ONE paragraph (field names that start with '#' behind a CR, VT or FF, two
+			// different names given twice): whichever the parser reports, it reports the same one every time
+			return "deb822", r.Pick([]string{"\r#first: 1\n\r#second: 2\n\f#third: 3\n\v#fourth: 4\n", "Package: a\n\r#x: 1\n\r#y: 2\n\r#z: 3\n\r#w: 4\n\r#v: 5\n",
+				"A: 1\nB: 1\nC: 1\nD: 1\nA: 2\nB: 2\nC: 2\nD: 2\n", "\v#a: 1\nK: 1\nK: 2\n\f#b: 2\n\r#c: 3\nL: 1\nL: 2\n"})
+		}
 		if r.Bool() { // an index stanza whose dependency fields are present but malformed
 			return "typed", "Package: a\nVersion: 1\nDepends: libc6 (>= 2.30\nPre-Depends: x [amd64\nBreaks: y (<> 1)\nBuild-Depends: ${z\nBinary: a\nMaintainer: m\nArchitecture: any\n"
 		}
